@@ -100,7 +100,12 @@ Section Check.
   Definition worker_check (m : Z) (k : nat) (data : list A) (se : Z * Z)
              (failed anypub : bool) (o : option (wobs A)) : option (option cand) :=
     match o with
-    | None => if failed || anypub then Some None else None
+    | None =>
+        (* silent: its initFunc failed, or it saw a published result before its
+           first try; its uninterrupted scan must still be defined *)
+        if failed || anypub then
+          match worker_dig flip P m k data se 0 with Ok _ => Some None | _ => None end
+        else None
     | Some w =>
         if failed then None
         else if w_n w <? 1 then None
